@@ -361,6 +361,23 @@ def handleThetaLen (args : List String) : Option String :=
         | .ok o => some s!"ok {showRat (sqrtQ (nsq (sub p1 o.centre)) * absR θ)}"
   | _ => none
 
+/-- `ArcEdgeBase.length` for the third point `M`: the three-point arc length when the edge is valid (`arcValid`), the distance of the two
+    end points otherwise (a collinear "arc" is dropped and meshed as a line).  `none` = `arc_length_3point` raises `ValueError` — by
+    `T_C08_valid_accepted` that cannot happen for a valid edge. -/
+def arcEdgeLength (p1 p2 M : V) : Option Float :=
+  if arcValid p1 p2 M then (arc3 p1 M p2).map (·.length)
+  else some (Float.sqrt (ratToFloat (nsq (sub p1 p2))))
+
+/-- `c08.elen p1 p2 M` → `ok <valid 0|1> <length bits>` | `reject` (ArcEdgeBase.length / is_valid for the third point `M`) -/
+def handleElen (args : List String) : Option String :=
+  match args with
+  | [p1, p2, M] => do
+      let p1 ← parseVec? p1; let p2 ← parseVec? p2; let M ← parseVec? M
+      match arcEdgeLength p1 p2 M with
+      | none => some "reject"
+      | some l => some s!"ok {if arcValid p1 p2 M then 1 else 0} {l.toBits}"
+  | _ => none
+
 /-- `c08.valid p1 p2 M` → `1` | `0` (ArcEdgeBase.is_valid for the third point `M`) -/
 def handleValid (args : List String) : Option String :=
   match args with
@@ -404,6 +421,7 @@ def handle (op : String) (args : List String) : Option String :=
   | "c08.thetalen" => handleThetaLen args
   | "c08.vmid" => handleVmid args
   | "c08.valid" => handleValid args
+  | "c08.elen" => handleElen args
   | "c08.poly" => handlePoly args
   | _ => none
 
